@@ -164,7 +164,24 @@ RangeSelects(t) == \A i, j \in Boundaries(t) : i <= j =>
   LET p == RefU2Pk(t, i)  q == RefU2Pk(t, j) IN
   /\ RefP2U(t, p[1], p[2]) = Off8(t, i) /\ RefP2U(t, q[1], q[2]) = Off8(t, j)
 
+\* position_to_utf8 is monotone on the positions a client can send (also clamped / out-of-range ones):
+\* an edit range start <= end is applied with replace_range(s..e), which needs s <= e
+P2UMonotone(t) ==
+  \A l1, l2 \in 0..(NLines(t) + 1) : \A c1, c2 \in 0..(MaxCol(t) + 2) :
+    (PosLeq(<<l1, c1>>, <<l2, c2>>) /\ RefP2U(t, l1, c1) # -1 /\ RefP2U(t, l2, c2) # -1)
+      => RefP2U(t, l1, c1) <= RefP2U(t, l2, c2)
+
+\* applying an edit (range, replacement) through the reference conversion gives what the client
+\* computes on its own UTF-16 view: prefix up to the start, replacement, suffix from the end
+KOfP(t, l, c) == KOfOffset(t, RefP2U(t, l, c))
+EditAgrees(t) ==
+  \A l1, l2 \in 0..(NLines(t) + 1) : \A c1, c2 \in 0..(MaxCol(t) + 2) :
+    (PosLeq(<<l1, c1>>, <<l2, c2>>) /\ RefP2U(t, l1, c1) # -1 /\ RefP2U(t, l2, c2) # -1)
+      => /\ KOfP(t, l1, c1) # -1 /\ KOfP(t, l2, c2) # -1          \* both ends are character boundaries
+         /\ KOfP(t, l1, c1) <= KOfP(t, l2, c2)
+
 RefProps == mode = "case" => RoundTrip(text) /\ Clamp(text) /\ Monotone(text) /\ RangeSelects(text)
+                             /\ P2UMonotone(text) /\ EditAgrees(text)
 
 (***************************************************************************)
 (* Case generation for the binding: one line per text with every expected  *)
